@@ -6,6 +6,7 @@ import PW.Interp
 import PW.Overlap
 import PW.Rng
 import PW.OpModel
+import PW.Routing
 /-!
 # JSON-lines driver for the executable model (compiled as `pwdriver`, Mathlib-free)
 
@@ -62,6 +63,62 @@ partial def exprOfJson (j : Json) : Except String Interp.Expr := do
 def valToJson : Interp.Val → Json
   | .num z => Json.mkObj [("num", Json.arr #[fbits z.re, fbits z.im])]
   | .mat m => Json.mkObj [("mat", Json.mkObj [("n", toJson m.n), ("re", Json.arr (m.a.map fun z => fbits z.re)), ("im", Json.arr (m.a.map fun z => fbits z.im))])]
+
+def blockOfJson (j : Json) : Except String Layout.Block := do
+  let k ← (← j.getObjVal? "k").getStr?
+  let m ← natList (← j.getObjVal? "m")
+  match k with
+  | "own" => pure ⟨.own, m⟩
+  | "env" => pure ⟨.env, m⟩
+  | "ps" => do
+      let c ← (← j.getObjVal? "c").getNat?
+      pure ⟨.ps c, m⟩
+  | _ => throw "bad block kind"
+
+def blockToJson (b : Layout.Block) : Json :=
+  match b.kind with
+  | .own => Json.mkObj [("k", "own"), ("m", toJson b.members)]
+  | .env => Json.mkObj [("k", "env"), ("m", toJson b.members)]
+  | .ps c => Json.mkObj [("k", "ps"), ("c", toJson c), ("m", toJson b.members)]
+
+def routeCall (j : Json) : Except String Json := do
+  let lay ← (← (← j.getObjVal? "layout").getArr?).toList.mapM blockOfJson
+  let subs ← (← j.getObjVal? "subs").getArr?
+  let mut table : List (Nat × Bool × Bool × Option Nat) := []
+  for sj in subs.toList do
+    let id ← (← sj.getObjVal? "id").getNat?
+    let f ← (← sj.getObjVal? "fock").getBool?
+    let cu ← (← sj.getObjVal? "custom").getBool?
+    let p := (sj.getObjVal? "partner").toOption.bind (·.getNat?.toOption)
+    table := (id, f, cu, p) :: table
+  let look := fun (x : Nat) => table.find? (·.1 == x)
+  let info : Routing.Info := {
+    isFock := fun x => (look x).map (·.2.1) |>.getD false,
+    isCustom := fun x => (look x).map (·.2.2.1) |>.getD false,
+    partner := fun x => (look x).bind (·.2.2.2) }
+  let call ← j.getObjVal? "call"
+  let what ← (← call.getObjVal? "what").getStr?
+  let getL := fun (k : String) => (call.getObjVal? k).toOption.bind (fun v => (natList v).toOption) |>.getD []
+  let c := (call.getObjVal? "c").toOption.bind (·.getNat?.toOption) |>.getD 0
+  let entry : Routing.Entry := match (call.getObjVal? "entry").toOption.bind (·.getStr?.toOption) with
+    | some "env" => .env | some "ce" => .ce | _ => .state
+  let T := getL "T"
+  let out ← match what with
+    | "none" => pure lay
+    | "op" => pure (Routing.actOp lay c T (getL "focks"))
+    | "kraus" => pure (Routing.actKraus info lay c entry T)
+    | "measure" => pure (Routing.actMeasure lay (getL "M") (getL "survivors"))
+    | "trace_out" => pure (Routing.actTraceOut info lay c entry T)
+    | "resize" => pure (Routing.actResize lay (T.headD 0))
+    | "povm" => pure (Routing.cePovm lay c T)
+    | "front" => pure (Routing.memberFront lay (T.headD 0) true)
+    | "env_combine" => pure (Routing.envCombine lay (T.headD 0) (T.getD 1 0))
+    | "env_order" => pure (Routing.envOrder lay T)
+    | "ce_combine" => pure (Layout.combine lay c T)
+    | "ce_reorder" => pure (Layout.reorder lay c T)
+    | "merge" => pure (Routing.mergeContainers lay c (getL "others"))
+    | _ => throw s!"unknown routing call {what}"
+  pure (Json.mkObj [("ok", Json.bool true), ("layout", Json.arr (out.toArray.map blockToJson))])
 
 /-- the spec machine state -/
 structure Core where
@@ -315,6 +372,9 @@ def step (s : St) (j : Json) : Except String (St × Json) := do
         | "CSWAP" => pure .cswap | "Expression" => pure .expression
         | _ => throw s!"unknown operation type {t}"
       pure (s, ok [("dims", toJson (OpModel.dimsFor ty q sizes old))])
+  | "route" => do
+      let r ← routeCall j
+      pure (s, r)
   | "canon" => do
       let str ← (← j.getObjVal? "s").getStr?
       match parsePlan str with
